@@ -1,8 +1,6 @@
 package rgsw
 
 import (
-	"math/big"
-
 	"github.com/tuneinsight/lattigo/v6/core/rlwe"
 	"github.com/tuneinsight/lattigo/v6/ring"
 )
